@@ -128,7 +128,8 @@ EffectiveOffsetSec(tzsec, altsec, daylight, isdst) ==
 \* ---------------------------------------------------------------- C20
 \* t: [hh, mi, ss (each -1 = unspecified), dom, doy, dow, woy (0 = unspecified), zu, zh, zm]
 \* effective time fields: a specified hour zeroes unspecified minutes and seconds, a specified minute zeroes seconds
-TrH(t) == t.hh
+\* (hour 24 names the end of a day: the hour sought is hour 0 - of the next day, since the match must not precede p)
+TrH(t) == IF t.hh = 24 THEN 0 ELSE t.hh
 TrM(t) == IF t.mi >= 0 THEN t.mi ELSE IF t.hh >= 0 THEN 0 ELSE -1
 TrS(t) == IF t.ss >= 0 THEN t.ss ELSE IF t.hh >= 0 \/ t.mi >= 0 THEN 0 ELSE -1
 TruncHasTime(t) == t.hh >= 0 \/ t.mi >= 0 \/ t.ss >= 0
